@@ -22,19 +22,33 @@ pub fn shrink(
     let mut msg = first_message;
     let mut execs = 0u64;
     let t0 = std::time::Instant::now();
+    // Passes over the candidate list; after a success the scan continues at the same index of the
+    // regenerated list (the list keeps its order: bigger removals first), so a long scenario is not
+    // re-scanned from its start after every single removal. Stops when a whole pass changes nothing.
+    let mut start = 0usize;
+    let mut progressed_this_pass = false;
     'outer: loop {
-        for cand in candidates(&cur) {
+        let cands = candidates(&cur);
+        let mut i = start.min(cands.len());
+        let mut advanced = false;
+        while i < cands.len() {
             // bounded in executions and in wall time (a minimiser must never become the long pole)
-            if execs >= budget || t0.elapsed().as_secs() > 300 { break 'outer; }
+            if execs >= budget || t0.elapsed().as_secs() > 60 { break 'outer; }
             execs += 1;
-            if let Some((id, m)) = fails(&cand) {
+            if let Some((id, m)) = fails(&cands[i]) {
                 if id == check_id {
-                    cur = cand;
+                    cur = cands[i].clone();
                     msg = m;
-                    continue 'outer;
+                    start = i;
+                    progressed_this_pass = true;
+                    advanced = true;
+                    break;
                 }
             }
+            i += 1;
         }
+        if advanced { continue; }
+        if progressed_this_pass { progressed_this_pass = false; start = 0; continue; }
         break;
     }
     ShrinkOutcome { scenario: cur, message: msg, executions: execs, from_size }
